@@ -58,7 +58,7 @@ def main():
             na.append(dict(property_id=pid, reason=NA.get(pid, NOT_YET)))
     man = dict(
         version=1,
-        setup_cmd="/venv/bin/python -m compileall -q mc checks && /venv/bin/python mc/selftest.py",
+        setup_cmd="/venv/bin/python mc/selftest.py",
         hooks=dict(
             guard="CPJKU_PARTITURA_VERIF",
             enable="no source hooks: checks import partitura from /repo's working tree (the ./check dispatcher exports CPJKU_PARTITURA_VERIF=1 for uniformity)",
